@@ -70,7 +70,7 @@ func fingerprint(w *World, st State, res TxResult) [32]byte {
 	d := w.Dump(st)
 	x := d.HashNoHeight()
 	h.Write(x[:])
-	fmt.Fprintf(h, "|ok=%v|err=%s|data=%x|", res.OK, res.Err, res.Data)
+	fmt.Fprintf(h, "|ok=%v|err=%s|data=%x|gas=%d|", res.OK, res.Err, res.Data, res.Gas)
 	for _, e := range res.Events {
 		bz, _ := e.Marshal()
 		writeLP(h, bz)
@@ -118,7 +118,7 @@ func (chkC07) CheckTrans(t *TransCtx) (out []Viol) {
 		free = fingerprint(w, t.PreSt, t.Res)
 	}
 	if free != base {
-		out = append(out, Viol{"C07.deterministic", "differs-from-free-run:" + t.Act.Kind, fmt.Sprintf("%s: execution with pinned map order differs from the free-running execution (ok=%v/%v err=%q/%q)", t.Act.Name, res0.OK, t.Res.OK, res0.Err, t.Res.Err)})
+		out = append(out, Viol{"C07.deterministic", "differs-from-free-run:" + t.Act.Kind, fmt.Sprintf("%s: execution with pinned map order differs from the free-running execution (ok=%v/%v err=%q/%q gas=%d/%d)", t.Act.Name, res0.OK, t.Res.OK, res0.Err, t.Res.Err, res0.Gas, t.Res.Gas)})
 	}
 	// the wall clock must not matter either: re-execute "ten years later" and "ten years earlier"
 	for _, shift := range []int64{10 * 365 * 86400, -10 * 365 * 86400} {
